@@ -10,6 +10,7 @@ import (
 	"github.com/gmrtd/gmrtd/bac"
 	"github.com/gmrtd/gmrtd/document"
 	"github.com/gmrtd/gmrtd/iso7816"
+	"github.com/gmrtd/gmrtd/mrz"
 	"github.com/gmrtd/gmrtd/password"
 
 	"verif/internal/refchip"
@@ -20,7 +21,7 @@ import (
 
 func init() {
 	vc.Register(&vc.Check{ID: "C05", Level: "model_checking", Run: run, Replay: replay, QuickSec: 120, ThoroSec: 900,
-		Rule:   "real bac.DoBAC (password from the full MRZ and from its three fields) against the independent chip personalised with keys derived by the reference from the printed MRZ. MRZ alphabet: three layouts x document-number lengths 1..9 and extended 10..max x filler/letter/digit shapes x date shapes; randoms RND.IC, K.IC (chip) and RND.IFD, K.IFD (terminal, through crypto/rand.Reader) from the full product {00..,FF..,pattern}^4. Success oracle: Success, the chip authenticated the terminal, and a protected file read succeeds on both sides (same session keys and SSC). Hostile responses (one deviation at the EXTERNAL AUTHENTICATE answer): every single-bit flip of the 40-byte cryptogram, MAC under another MRZ's keys, genuine cryptogram of another run, RND.IFD / RND.IC not echoed under a correct MAC, lengths 39/41, all-zero, bare status, the terminal's own cryptogram reflected => Success=false and no SM session. Histories: every sequence of up to 3 (thorough 4) runs on one session over {conforming chip, key-less device replaying the recorded previous run, 6300}, through one reused BAC object and through a new object per run: conforming runs succeed with a usable session, every other run fails closed. states = protocol runs, transitions = exchanges; distinct_nontrivial = distinct (layout, docnum length, random combo | hostile kind, outcome)",
+		Rule:   "real bac.DoBAC (password from the full MRZ, from its three fields, and from the fields mrz.MrzDecode returns) against the independent chip personalised with keys derived by the reference from the printed MRZ. MRZ alphabet: three layouts x document-number lengths 1..9 and extended 10..max x filler/letter/digit shapes x date shapes; randoms RND.IC, K.IC (chip) and RND.IFD, K.IFD (terminal, through crypto/rand.Reader) from the full product {00..,FF..,pattern}^4. Success oracle: Success, the chip authenticated the terminal, and a protected file read succeeds on both sides (same session keys and SSC). Hostile responses (one deviation at the EXTERNAL AUTHENTICATE answer): every single-bit flip of the 40-byte cryptogram, MAC under another MRZ's keys, genuine cryptogram of another run, RND.IFD / RND.IC not echoed under a correct MAC, lengths 39/41, all-zero, bare status, the terminal's own cryptogram reflected => Success=false and no SM session. Histories: every sequence of up to 3 (thorough 4) runs on one session over {conforming chip, key-less device replaying the recorded previous run, 6300}, through one reused BAC object and through a new object per run: conforming runs succeed with a usable session, every other run fails closed. states = protocol runs, transitions = exchanges; distinct_nontrivial = distinct (layout, docnum length, random combo | hostile kind, outcome)",
 		Assume: []string{"reference KDF / 3DES / retail MAC anchored to ICAO 9303-11 App. D.2/D.3 by SelfTest", "MAC forgery not searched"}})
 }
 
@@ -38,15 +39,16 @@ var patterns = map[string]func(n int) []byte{
 var patNames = []string{"00", "FF", "pt"}
 
 type runCase struct {
-	Zone    string    `json:"zone"`
-	MRZInfo string    `json:"mrz_info"` // reference expectation, used to personalise the chip
-	ViaMrzi bool      `json:"via_fields"`
-	DocNum  string    `json:"doc_number"`
-	DOB     string    `json:"dob"`
-	DOE     string    `json:"doe"`
-	Rnd     [4]string `json:"rnd"` // RND.IC, K.IC, RND.IFD, K.IFD pattern names
-	Hostile string    `json:"hostile"`
-	Bit     int       `json:"bit"`
+	Zone       string    `json:"zone"`
+	MRZInfo    string    `json:"mrz_info"` // reference expectation, used to personalise the chip
+	ViaMrzi    bool      `json:"via_fields"`
+	ViaDecoded bool      `json:"via_decoded_fields,omitempty"` // mrz.MrzDecode(zone), then NewPasswordMrzi on the decoded fields
+	DocNum     string    `json:"doc_number"`
+	DOB        string    `json:"dob"`
+	DOE        string    `json:"doe"`
+	Rnd        [4]string `json:"rnd"` // RND.IC, K.IC, RND.IFD, K.IFD pattern names
+	Hostile    string    `json:"hostile"`
+	Bit        int       `json:"bit"`
 }
 
 type result struct {
@@ -137,7 +139,12 @@ func runOne(rc runCase) result {
 	var res result
 	var pass *password.Password
 	var err error
-	if rc.ViaMrzi {
+	if rc.ViaDecoded {
+		var dec *mrz.MRZ
+		if dec, err = mrz.MrzDecode(rc.Zone); err == nil {
+			pass, err = password.NewPasswordMrzi(dec.DocumentNumber, dec.DateOfBirth, dec.DateOfExpiry)
+		}
+	} else if rc.ViaMrzi {
 		pass, err = password.NewPasswordMrzi(rc.DocNum, rc.DOB, rc.DOE)
 	} else {
 		pass, err = password.NewPasswordMrz(rc.Zone)
@@ -272,10 +279,14 @@ func run(c *vc.Ctx) {
 		}
 	}
 	sec1 := "genuine: MRZ shapes x randoms^4 x {full MRZ, three fields}"
-	c.SecBound(sec1, fmt.Sprintf("%d MRZ bases (3 layouts, document number lengths 1..max incl. extended, letters/digits/interior filler, date shapes) x 81 random combinations x 2 password routes", len(bs)))
+	c.SecBound(sec1, fmt.Sprintf("%d MRZ bases (3 layouts, document number lengths 1..max incl. extended, letters/digits/interior filler, date shapes) x 81 random combinations x 2 password routes (full MRZ, the three printed fields) + 3 combinations through the third route MrzDecode -> decoded fields -> NewPasswordMrzi", len(bs)))
 	for bi, b := range bs {
 		for i := 0; i < 81; i++ {
-			for _, via := range []bool{false, true} {
+			for route := 0; route < 3; route++ {
+				via := route == 1
+				if route == 2 && i >= 3 {
+					continue // the decoded-fields route concerns the key seed only: 3 random combinations suffice
+				}
 				if !c.Mine() {
 					continue
 				}
@@ -284,8 +295,8 @@ func run(c *vc.Ctx) {
 					goto hostile
 				}
 				r := [4]string{patNames[i%3], patNames[i/3%3], patNames[i/9%3], patNames[i/27%3]}
-				rc := runCase{Zone: b.Zone, MRZInfo: b.Info, ViaMrzi: via, DocNum: b.DocNum, DOB: b.DOB, DOE: b.DOE, Rnd: r}
-				do(sec1, rc, fmt.Sprintf("g/%s/%d/%v/%d", b.Layout, len(b.DocNum), via, i))
+				rc := runCase{Zone: b.Zone, MRZInfo: b.Info, ViaMrzi: via, ViaDecoded: route == 2, DocNum: b.DocNum, DOB: b.DOB, DOE: b.DOE, Rnd: r}
+				do(sec1, rc, fmt.Sprintf("g/%s/%d/%d/%d", b.Layout, len(b.DocNum), route, i))
 				if bi == 3 && i == 5 && !via {
 					c.Sample(rc)
 				}
